@@ -12,6 +12,21 @@ from .layout import fixed_type
 # ------------------------------------------------------------------ implementation side
 
 
+_GEN = {}
+_GEN_CALLS = [0]
+
+
+def _plugin_generator(mod):
+    """every second call in a worker process re-uses one long-lived generator object of the plug-in (a tool that generates
+    several schemas in a row keeps it); the others get a fresh one"""
+    _GEN_CALLS[0] += 1
+    if _GEN_CALLS[0] % 2 == 0:
+        if mod.__name__ not in _GEN:
+            _GEN[mod.__name__] = mod.Generator()
+        return _GEN[mod.__name__]
+    return mod.Generator()
+
+
 def w_dbc(case):
     from fcp.parser import get_fcp_from_string
     from fcp.error import Logger
@@ -23,7 +38,7 @@ def w_dbc(case):
     fcp = r.unwrap()
     out = {"schema": fcp.to_dict()}
     try:
-        files = fcp_dbc.Generator().generate(fcp, {"output": "/nonexistent-out"})
+        files = _plugin_generator(fcp_dbc).generate(fcp, {"output": "/nonexistent-out"})
         out["files"] = [{"bus": f["bus"], "path": str(f["path"]), "contents": str(f["contents"])} for f in files]
     except Exception as e:
         out["raised"] = {"exc": type(e).__name__, "msg": str(e)[:200]}
